@@ -1629,12 +1629,79 @@ CONDITIONS = [
 ]
 
 
+# ---- uniq / compact / reverse over values of mixed types that print alike or compare alike --------------------------
+MIX = [1, "1", 1.0, True, "True", None, "", "None", "1 ", -1, {"a": 1}, "{'a': 1}", 2, "2", 0, False, "a", "A", 1.5, "1.5"]
+
+
+def _ref_uniq(xs):
+    out = []
+    for x in xs:
+        if not any(x == y for y in out):
+            out.append(x)
+    return out
+
+
+def _ref_uniq_key(xs, key):
+    out, keys = [], []
+    for x in xs:
+        k = x.get(key, MIX)            # MIX: a stand-in for "no such key", equal to nothing in the pool
+        if not any(k is y or k == y for y in keys):
+            keys.append(k)
+            out.append(x)
+    return out
+
+
+def _ident(r, exp):
+    return type(r) is list and len(r) == len(exp) and all(a is b for a, b in zip(r, exp))
+
+
+def mixed_uniq_sweep(i0, i1):
+    bad = []
+    for i2 in range(len(MIX) + 1):
+        for i3 in range(len(MIX) + 1):
+            idx = [i0, i1] + ([i2] if i2 < len(MIX) else []) + ([i3] if i3 < len(MIX) else [])
+            xs = [MIX[i] for i in idx]
+            keep = list(xs)
+            r = call(f_uniq, xs)
+            if not _ident(r, _ref_uniq(xs)) or r is xs or not _ident(xs, keep):
+                bad.append({"filter": "uniq", "input": repr(xs), "observed": repr(r), "expected": repr(_ref_uniq(xs))})
+            hs = [{"k": x} if j != 2 else {"z": x} for j, x in enumerate(xs)]
+            rk = call(f_uniq, hs, "k")
+            if not _ident(rk, _ref_uniq_key(hs, "k")):
+                bad.append({"filter": "uniq: 'k'", "input": repr(hs), "observed": repr(rk), "expected": repr(_ref_uniq_key(hs, "k"))})
+            rc = call(F["compact"], xs)
+            if not _ident(rc, [x for x in xs if x is not None]):
+                bad.append({"filter": "compact", "input": repr(xs), "observed": repr(rc)})
+            rr = call(F["reverse"], xs)
+            if not _ident(rr, xs[::-1]) or not _ident(xs, keep):
+                bad.append({"filter": "reverse", "input": repr(xs), "observed": repr(rr)})
+            if len(bad) > 3:
+                return bad
+    return bad
+
+
+def c25_mixed_type_arrays(i0: int, i1: int) -> bool:
+    """
+    pre: 0 <= i0 <= 19 and 0 <= i1 <= 19
+    post: _
+    """
+    if excluded("c25_mixed_type_arrays", locals()):
+        return True
+    i0, i1 = cint(i0, 0, 19), cint(i1, 0, 19)
+    return finish(untraced(lambda: not mixed_uniq_sweep(i0, i1)))
+
+
+CONDITIONS.append({"fn": "c25_mixed_type_arrays", "quick": 60, "thorough": 120, "sel_only": True,
+                   "bounds": "lists of 2..4 items from a 20-value pool of ints, floats, booleans, nil, strings, lists and hashes that print or compare alike"})
+
+
 def _d_truncate(s, num, end):
     return {"observed": call(f_truncate, s, num, end), "len(s)": len(s), "num": num, "end": end,
             "required": "unchanged" if len(s) <= num else "ends with end, len <= %d" % max(num, len(end))}
 
 
 DETAIL = {
+    "c25_mixed_type_arrays": lambda i0, i1: {"failing": mixed_uniq_sweep(i0, i1)[:3]},
     "c25_int_string_pool": _DETAIL_INT_STRING,
     "c25_math_exact_text": _DETAIL_MATH_EXACT,
     "c25_truncate_exact": lambda s, end: _d_truncate(s, len(s), end),
@@ -1691,6 +1758,8 @@ def selftest():
     chk("default doc", f_default("", "hello"), "hello")
     chk("default doc 0", f_default(0, 99), 0)
     chk("sort_natural doc", f_sort_natural(["zebra", "octopus", "giraffe", "Sally Snake"]), ["giraffe", "octopus", "Sally Snake", "zebra"])
+    if len(MIX) != 20:
+        fails.append("MIX pool size differs from the bounds of c25_mixed_type_arrays")
     chk("uniq doc", f_uniq(["ants", "bugs", "bees", "bugs", "ants"]), ["ants", "bugs", "bees"])
     chk("permutation", permutation([1, 2, 2], [2, 1, 2]) and not permutation([1, 1, 2], [2, 1, 2]), True)
     chk("decimal oracle", float(dec(183.357) * dec(12)), 2200.284)
